@@ -281,6 +281,36 @@ func (s *gatedSegment) DocsMatchingTerms(terms []segment.Term) (*roaring.Bitmap,
 	return s.Segment.DocsMatchingTerms(terms)
 }
 
+func (s *gatedSegment) Count() uint64 {
+	r := Role()
+	if r == "introducer" {
+		// name the introduction that is being applied
+		r = "introducer/" + introKind()
+	}
+	s.g.Arrive(r + ":count")
+	return s.Segment.Count()
+}
+
+func introKind() string {
+	var pcs [48]uintptr
+	n := runtime.Callers(2, pcs[:])
+	frames := runtime.CallersFrames(pcs[:n])
+	for {
+		fr, more := frames.Next()
+		switch {
+		case strings.HasSuffix(fr.Function, "(*Writer).introducePersist"):
+			return "persist"
+		case strings.HasSuffix(fr.Function, "(*Writer).introduceMerge"):
+			return "merge"
+		case strings.HasSuffix(fr.Function, "(*Writer).introduceSegment"):
+			return "segment"
+		}
+		if !more {
+			return "other"
+		}
+	}
+}
+
 func unwrapSeg(s segment.Segment) segment.Segment {
 	if gs, ok := s.(*gatedSegment); ok {
 		return gs.Segment
